@@ -664,7 +664,7 @@ func main() {
 		}
 	} else {
 		r := common.NewRng(o.Seed)
-		n := o.Budget(3000, 40000)
+		n := o.Budget(3000, 100000)
 		var cases []TCase
 		for i := 0; i < n && err == nil; i++ {
 			cases = append(cases, genCase(r.Fork(uint64(i)), i))
